@@ -306,6 +306,54 @@ def second_run_setup_cfg(deps: List[int], inline: bool, final_newline: bool) -> 
     return fin(ok and cs2 is None and after2 == after1)
 
 
+REQ_LAYOUTS = [
+    "defusedxml==0.7.1\n",
+    "defusedxml  # xml\n",
+    "defusedxml==0.7.1 \\\n    --hash=sha256:bbbb\n",
+    "defusedxml==0.7.1 --hash=sha256:bbbb\n",
+    "DefusedXML[extra]>=0.7 ; python_version > '3'\n",
+    "",
+]
+
+
+def second_run_requirements_txt(layout: int, final_newline: bool) -> bool:
+    """Parser + writer round trip on requirements.txt (real RequirementsTxtParser incl. chardet, real writer): defusedxml
+    declared in one of 5 layouts (pinned, with a comment, hash-checking with continuation line, inline --hash, extras
+    and marker under another spelling) or not declared: a declared package is never added again; an undeclared one is
+    added once and a second run (re-parse, write again) adds nothing.
+    post: _
+    """
+    import codemodder.project_analysis.file_parsers.requirements_txt_file_parser as rtp
+
+    k = 0
+    while k < len(REQ_LAYOUTS) - 1:
+        if layout % len(REQ_LAYOUTS) == k:
+            break
+        k += 1
+    decl = REQ_LAYOUTS[k]
+    text = "requests==2.31.0 --hash=sha256:aaaa\n" + decl
+    if not final_newline and text.endswith("\n"):
+        text = text[:-1]
+    path = "/d/requirements.txt"
+    fs = FakeFS({path: text})
+    rw.open = fs.open
+    rtp.open = fs.open
+    try:
+        with NoTracing():
+            store1 = rtp.RequirementsTxtParser(Path("/d"))._parse_file(Path(path))
+            cs1 = DependencyManager(store1, Path("/d")).write([DefusedXML], False)
+            after1 = fs.files[path]
+            store2 = rtp.RequirementsTxtParser(Path("/d"))._parse_file(Path(path))
+            cs2 = DependencyManager(store2, Path("/d")).write([DefusedXML], False)
+            after2 = fs.files[path]
+    finally:
+        del rw.open
+        del rtp.open
+    if decl:
+        return fin(cs1 is None and cs2 is None and after2 == text)
+    return fin(cs1 is not None and after1.lower().count("defusedxml") == 1 and cs2 is None and after2 == after1 and after1.startswith("requests==2.31.0 --hash=sha256:aaaa"))
+
+
 def second_run_setup_py(single_quotes: bool, attr_call: bool, declared: int) -> bool:
     """Parser + writer round trip on setup.py (real SetupPyParser, real SetupPyWriter; libcst runs untraced on the
     concrete text): requirement strings written with double or single quotes, `setup(..)` or `setuptools.setup(..)`,
@@ -486,6 +534,7 @@ SPEC = {
         Xh("setup_cfg", 400, 1500),
         Xh("already_declared_not_written", 150, 300),
         Xh("second_run_setup_py", 100, 200),
+        Xh("second_run_requirements_txt", 100, 200),
         Xh("second_run_setup_cfg", 200, 400),
         Xh("two_codemods_one_manifest", 200, 400),
         Xh("notice", 150, 300),
